@@ -82,11 +82,12 @@ theorem consolidatableAfter_eq (pool : Pool) (c : Claim) (now : Int) (hs : pool.
         · have : t + ca ≤ now := by omega
           simp [h0, h1, this]
 
-theorem afterController_eq (pool : Pool) (c : Claim) (now : Int) :
-    afterController pool c now = reconcileClaim pool c now := by
-  unfold afterController reconcileClaim
+theorem afterController_eq (f : RFaults) (pool : Pool) (c : Claim) (now : Int) :
+    afterController f pool c now = reconcileClaimF f pool c now := by
+  unfold afterController reconcileClaimF controllerActs
   cases hd : c.deleting
-  · cases hp : c.md.pool <;> cases hpr : pool.present <;> cases hs : pool.static <;> simp
+  · cases hp : c.md.pool <;> cases hpr : pool.present <;> cases hs : pool.static <;>
+      cases hg : f.poolGet <;> cases hpa : f.patch <;> simp
     rw [consolidatableAfter_eq pool c now hs]
   · simp
 
@@ -197,7 +198,7 @@ theorem step_inv (pool : Pool) (l : Log) (e : Ev) (h : LogInv l) : LogInv (specS
     intro h
     apply hclean
     cases hc : l.claim <;> simp_all [specStep, Log.tracked]
-  | reconcile =>
+  | reconcile f =>
     refine ⟨hpast, ?_, hvis⟩
     intro h
     apply hclean
@@ -306,7 +307,7 @@ theorem quiet_keeps_claim (pool : Pool) (l : Log) (e : Ev) (c : Claim) (hq : qui
         · exact hc
   | claim _ => cases hq
   | podEvent => cases hq
-  | reconcile => cases hq
+  | reconcile f => cases hq
 
 theorem quiet_run_keeps_claim (pool : Pool) (es : List Ev) : ∀ (l : Log) (c : Claim),
     (∀ e ∈ es, quiet e = true) → l.claim = some c → (specRun pool l es).claim = some c := by
